@@ -36,10 +36,10 @@ def secret_sets(rng, tier):
     # literals that are new in the source (gen/srclit.py): secrets that contain, start with, end with or are the new words;
     # secrets whose length is a new integer (and its neighbours)
     from gen import srclit as SL
-    for w in SL.words():
+    for w in SL.words()[:30]:
         sets.append([w + m(0), m(1) + w, m(2) + w + m(2), w.upper() + " " + m(3)])
         sets.append([w, m(1), " " + w, w + w])
-    for k in SL.sizes(limit=100000, lo=4):
+    for k in SL.sizes(limit=9000, lo=4)[:9]:
         sets.append([(m(0) * (k // 11 + 1))[:k], (m(1) * (k // 11 + 1))[:k + 1], m(2), ("\u00e9" + m(3)) * (k // 13 + 1)])
     if tier == "thorough":
         sets.append([m(0) * 6000, m(1) * 6000, m(2) * 10, m(3)])   # > 64 KiB
